@@ -16,7 +16,7 @@ import Mathlib.Tactic.FieldSimp
 `Canvas.C03.*` are the hand-written loop / `replace` models, tied to the real flatteners by the
 correspondence run (bit exact for quadratics). All theorems are over an arbitrary linearly ordered
 field `K`; the step-size rule of the loops is an ARBITRARY function (`vertices_*`) or is
-characterised by the equation the code solves (`*_within_two_tol_partial`). -/
+characterised by the two bounds the repaired code takes the minimum of (`*_within_two_tol`). -/
 set_option linter.unusedSectionVars false
 namespace C03
 open Canvas Canvas.C03 GenK C03L
@@ -121,110 +121,64 @@ theorem chord_bound_piece (p0 p1 p2 : Pt K) (t s : K) (h0 : 0 ≤ s) (h1 : s ≤
   rw [hend, hstart] at hb
   exact hb
 
-/-- FULL statement wanted by the property for one iteration of `flattenQuadraticBezier`: with the
-code's step rule the piece stays within 2·tol of its chord line. It is FALSE for the code (see the
-witnesses below), so only the version with the turn hypothesis is proved. -/
-def quad_piece_within_two_tol_statement : Prop :=
-  ∀ (p0 p1 p2 : Pt ℚ) (tol d t u : ℚ),
-    d * d = Point.Dot (Point.Sub p1 p0) (Point.Sub p1 p0) → 0 ≤ t → t ≤ 1 → 0 ≤ u → u ≤ 1 →
-    t * t * |s2nom p0 p1 p2| = 4 * tol * d →
-    (Point.PerpDot (Point.Sub (quadraticBezierPos p0 p1 p2 (u * t)) p0) (Point.Sub (quadraticBezierPos p0 p1 p2 t) p0)) ^ 2
-      ≤ (2 * tol) ^ 2 * Point.Dot (Point.Sub (quadraticBezierPos p0 p1 p2 t) p0) (Point.Sub (quadraticBezierPos p0 p1 p2 t) p0)
-
-/-- One iteration of `flattenQuadraticBezier`: `t` solves the code's equation
-`t = 2·sqrt(tol·|denom/s2nom|)`, i.e. `t²·|s2nom| = 4·tol·denom` with `denom² = |p1−p0|²`.
-If the control polygon turns by at most 90° (`(p1−p0)·(p2−p1) ≥ 0` — the excluded class is the
-fold-back / collinear-overshoot defect), every point `B(u·t)` of the piece is within `2·tol` of the
-chord line through `p0` and `B(t)`:  cross² ≤ (2·tol)²·|chord|². -/
-theorem quad_piece_within_two_tol_partial (p0 p1 p2 : Pt K) (tol d t u : K)
-    (hd2 : d * d = Point.Dot (Point.Sub p1 p0) (Point.Sub p1 p0))
-    (ht0 : 0 ≤ t) (ht1 : t ≤ 1) (hu0 : 0 ≤ u) (hu1 : u ≤ 1)
-    (hstep : t * t * |s2nom p0 p1 p2| = 4 * tol * d)
-    (hturn : 0 ≤ Point.Dot (Point.Sub p1 p0) (Point.Sub p2 p1)) :
+/-- One iteration of the repaired `flattenQuadraticBezier`. The step is
+`t = min(2·sqrt(tol·|denom/s2nom|), D·D/(D·D − turn))` (the second bound only when
+`turn = (p1−p0)·(p2−p1) < 0`), so `t²·|s2nom| ≤ 4·tol·denom` with `denom² = |p1−p0|²` and
+`t·(D·D − turn) ≤ D·D` (`step_cap_establishes_hypothesis`). Then every point `B(u·t)` of the piece is
+within `2·tol` of the chord line through `p0` and `B(t)`:  cross² ≤ (2·tol)²·|chord|².
+All control polygons, all tolerances. -/
+theorem quad_piece_within_two_tol (p0 p1 p2 : Pt K) (tol d t u : K)
+    (hd2 : d * d = dd p0 p1)
+    (ht0 : 0 ≤ t) (hu0 : 0 ≤ u) (hu1 : u ≤ 1)
+    (hstep : t * t * |s2nom p0 p1 p2| ≤ 4 * tol * d)
+    (hcap : t * (dd p0 p1 - turnDot p0 p1 p2) ≤ dd p0 p1) :
     (Point.PerpDot (Point.Sub (quadraticBezierPos p0 p1 p2 (u * t)) p0) (Point.Sub (quadraticBezierPos p0 p1 p2 t) p0)) ^ 2
       ≤ (2 * tol) ^ 2 * Point.Dot (Point.Sub (quadraticBezierPos p0 p1 p2 t) p0) (Point.Sub (quadraticBezierPos p0 p1 p2 t) p0) :=
-  piece_two_tol p0 p1 p2 tol d t u hd2 ht0 ht1 hu0 hu1 hstep hturn
+  piece_two_tol p0 p1 p2 tol d t u hd2 ht0 hu0 hu1 hstep hcap
 
-/-- The last piece: the loop is left when `t ≥ 1`, i.e. `|s2nom| ≤ 4·tol·denom` (this includes
-`s2nom = 0`, where the code computes `t = +Inf`), and the rest of the curve is replaced by the chord
-`p0 → p2`. Under the same turn hypothesis every curve point is within `2·tol` of that chord line. -/
-theorem quad_last_piece_within_two_tol_partial (p0 p1 p2 : Pt K) (tol d u : K)
-    (hd2 : d * d = Point.Dot (Point.Sub p1 p0) (Point.Sub p1 p0))
+/-- The two bounds of the code's step give the hypotheses of `quad_piece_within_two_tol`: if the
+polygon turns by more than 90° the step is at most `D·D/(D·D − turn)`, otherwise any `t ≤ 1` will do. -/
+theorem step_cap_establishes_hypothesis (p0 p1 p2 : Pt K) (t : K) (ht0 : 0 ≤ t) (ht1 : t ≤ 1)
+    (hmin : turnDot p0 p1 p2 < 0 → t ≤ dd p0 p1 / (dd p0 p1 - turnDot p0 p1 p2)) :
+    t * (dd p0 p1 - turnDot p0 p1 p2) ≤ dd p0 p1 := by
+  rcases lt_or_ge (turnDot p0 p1 p2) 0 with h | h
+  · exact cap_gives_hcap p0 p1 p2 t h (hmin h)
+  · exact no_turn_gives_hcap p0 p1 p2 t ht0 ht1 h
+
+/-- The loop is never left (`t ≥ 1`) while the polygon turns by more than 90°: the cap is below 1.
+So at the last piece `turn ≥ 0` holds. -/
+theorem step_cap_below_one (p0 p1 p2 : Pt K) (hturn : turnDot p0 p1 p2 < 0) :
+    dd p0 p1 / (dd p0 p1 - turnDot p0 p1 p2) < 1 := cap_lt_one p0 p1 p2 hturn
+
+/-- The last piece: the loop is left when `t ≥ 1`, i.e. `|s2nom| ≤ 4·tol·denom` and (by
+`step_cap_below_one`) `turn ≥ 0`, or when `p0 = p1` (then `s2nom = 0 = turn` and `d = 0`); the rest of
+the curve is replaced by the chord `p0 → p2` and every curve point is within `2·tol` of that chord line. -/
+theorem quad_last_piece_within_two_tol (p0 p1 p2 : Pt K) (tol d u : K)
+    (hd2 : d * d = dd p0 p1)
     (hu0 : 0 ≤ u) (hu1 : u ≤ 1)
     (hstop : |s2nom p0 p1 p2| ≤ 4 * tol * d)
-    (hturn : 0 ≤ Point.Dot (Point.Sub p1 p0) (Point.Sub p2 p1)) :
+    (hturn : 0 ≤ turnDot p0 p1 p2) :
     (Point.PerpDot (Point.Sub (quadraticBezierPos p0 p1 p2 u) p0) (Point.Sub p2 p0)) ^ 2
       ≤ (2 * tol) ^ 2 * Point.Dot (Point.Sub p2 p0) (Point.Sub p2 p0) :=
   last_piece_two_tol p0 p1 p2 tol d u hd2 hu0 hu1 hstop hturn
 
-/-- under the turn hypothesis the curve advances monotonically along the chord direction, so the
-nearest point of the chord LINE lies on the chord SEGMENT (distance to the line = distance to the
-polyline edge): d/ds of B(s)·(p2−p0) ≥ 0 -/
-theorem quad_monotone_along_chord_partial (p0 p1 p2 : Pt K) (s : K) (h0 : 0 ≤ s) (h1 : s ≤ 1)
-    (hturn : 0 ≤ Point.Dot (Point.Sub p1 p0) (Point.Sub p2 p1)) :
-    0 ≤ Point.Dot (quadraticBezierDeriv p0 p1 p2 s) (Point.Sub p2 p0) := by
-  simp only [quadraticBezierDeriv, Point.Dot, Point.Sub, Point.Mul, Point.Add] at *
-  have e : ((-2 + 2 * s) * p0.x + (2 - 4 * s) * p1.x + 2 * s * p2.x) * (p2.x - p0.x) +
-      ((-2 + 2 * s) * p0.y + (2 - 4 * s) * p1.y + 2 * s * p2.y) * (p2.y - p0.y)
-      = 2 * ((1 - s) * ((p1.x - p0.x) * (p1.x - p0.x) + (p1.y - p0.y) * (p1.y - p0.y))
-          + s * ((p2.x - p1.x) * (p2.x - p1.x) + (p2.y - p1.y) * (p2.y - p1.y))
-          + ((p1.x - p0.x) * (p2.x - p1.x) + (p1.y - p0.y) * (p2.y - p1.y))) := by ring
-  rw [e]
-  have a := mul_nonneg (by linarith : (0 : K) ≤ 1 - s) (add_nonneg (mul_self_nonneg (p1.x - p0.x)) (mul_self_nonneg (p1.y - p0.y)))
-  have b := mul_nonneg h0 (add_nonneg (mul_self_nonneg (p2.x - p1.x)) (mul_self_nonneg (p2.y - p1.y)))
-  linarith
+/-- Along a piece cut by the capped step the curve advances monotonically in the direction of its
+chord, so the nearest point of the chord LINE lies on the chord SEGMENT (distance to the line =
+distance to the polyline edge): B'(x)·(B(t) − p0) ≥ 0 for 0 ≤ x ≤ t. -/
+theorem quad_monotone_along_chord (p0 p1 p2 : Pt K) (t x : K) (hx0 : 0 ≤ x) (hxt : x ≤ t)
+    (hcap : t * (dd p0 p1 - turnDot p0 p1 p2) ≤ dd p0 p1) :
+    0 ≤ Point.Dot (quadraticBezierDeriv p0 p1 p2 x) (Point.Sub (quadraticBezierPos p0 p1 p2 t) p0) :=
+  monotone_along_chord p0 p1 p2 t x hx0 hxt hcap
 
-/-- non-vacuity of the hypotheses of the partial theorems: (0,0),(1,1),(2,0) with tol = 1/2, d² = 2
-… over ℚ take the 3-4-5 polygon (0,0),(3,4),(10,5): D·W = 3·7+4·1 > 0, d = 5, s2nom = 3·5−4·10 = −25,
-t = 1 solves t²·25 = 4·tol·5 for tol = 5/4 -/
-example : (5 : ℚ) * 5 = Point.Dot (Point.Sub (Pt.mk 3 4) (Pt.mk (0 : ℚ) 0)) (Point.Sub (Pt.mk 3 4) (Pt.mk 0 0))
-    ∧ (1 : ℚ) * 1 * |s2nom (Pt.mk (0 : ℚ) 0) (Pt.mk 3 4) (Pt.mk 10 5)| = 4 * (5 / 4) * 5
-    ∧ (0 : ℚ) ≤ Point.Dot (Point.Sub (Pt.mk 3 4) (Pt.mk (0 : ℚ) 0)) (Point.Sub (Pt.mk 10 5) (Pt.mk 3 4)) := by
-  simp only [s2nom, Point.Dot, Point.Sub, Point.PerpDot]
+/-- non-vacuity, over ℚ: the hairpin (0,0),(30,40),(1,0) with tol = 1 (|D| = 50, turn = −2470,
+s2nom = −40): the cap 2500/4970 is a legal step and satisfies both hypotheses -/
+example : (50 : ℚ) * 50 = dd (Pt.mk (0 : ℚ) 0) (Pt.mk 30 40)
+    ∧ turnDot (Pt.mk (0 : ℚ) 0) (Pt.mk 30 40) (Pt.mk 1 0) < 0
+    ∧ (2500 / 4970 : ℚ) * (2500 / 4970) * |s2nom (Pt.mk (0 : ℚ) 0) (Pt.mk 30 40) (Pt.mk 1 0)| ≤ 4 * 1 * 50
+    ∧ (2500 / 4970 : ℚ) * (dd (Pt.mk (0 : ℚ) 0) (Pt.mk 30 40) - turnDot (Pt.mk (0 : ℚ) 0) (Pt.mk 30 40) (Pt.mk 1 0))
+        ≤ dd (Pt.mk (0 : ℚ) 0) (Pt.mk 30 40) := by
+  simp only [dd, turnDot, s2nom, Point.Dot, Point.Sub, Point.PerpDot]
   norm_num
-
-/-- DEFECT WITNESS (thin hairpin): (0,0),(30,40),(1,0) with tol = 1. The code's stop condition
-holds (|s2nom| = 40 ≤ 4·tol·denom = 200), so the curve is replaced by the chord (0,0)→(1,0); but the
-curve point B(1/2) is 10 away from the chord line: cross² = 400 > (2·tol)²·|chord|² = 4. -/
-theorem thin_hairpin_witness :
-    let p0 : Pt ℚ := ⟨0, 0⟩; let p1 : Pt ℚ := ⟨30, 40⟩; let p2 : Pt ℚ := ⟨1, 0⟩
-    (50 : ℚ) * 50 = Point.Dot (Point.Sub p1 p0) (Point.Sub p1 p0)
-      ∧ |s2nom p0 p1 p2| ≤ 4 * 1 * 50
-      ∧ (2 * 1 : ℚ) ^ 2 * Point.Dot (Point.Sub p2 p0) (Point.Sub p2 p0)
-          < (Point.PerpDot (Point.Sub (quadraticBezierPos p0 p1 p2 (1 / 2)) p0) (Point.Sub p2 p0)) ^ 2 := by
-  simp only [s2nom, Point.Dot, Point.Sub, Point.PerpDot, quadraticBezierPos, Point.Mul, Point.Add]
-  norm_num
-
-/-- hence the full statement is false -/
-theorem quad_piece_within_two_tol_statement_false : ¬ quad_piece_within_two_tol_statement := by
-  intro h
-  have := h ⟨0, 0⟩ ⟨30, 40⟩ ⟨1, 0⟩ (1 / 5) 50 1 (1 / 2)
-    (by simp only [Point.Dot, Point.Sub]; norm_num) (by norm_num) (by norm_num) (by norm_num) (by norm_num)
-    (by simp only [s2nom, Point.Dot, Point.Sub, Point.PerpDot]; norm_num)
-  simp only [Point.Dot, Point.Sub, Point.PerpDot, quadraticBezierPos, Point.Mul, Point.Add] at this
-  norm_num at this
-
-/-- DEFECT WITNESS (collinear overshoot, `M0 0Q2 0 1 0`): for EVERY tolerance the stop condition
-holds (s2nom = 0), the model loop with any step rule that stops there returns just the chord end, and
-the curve point B(1/2) = (5/4, 0) is at distance ≥ 1/4 from every point of the chord segment. -/
-theorem collinear_overshoot_witness :
-    let p0 : Pt ℚ := ⟨0, 0⟩; let p1 : Pt ℚ := ⟨2, 0⟩; let p2 : Pt ℚ := ⟨1, 0⟩
-    s2nom p0 p1 p2 = 0
-      ∧ (∀ tol : ℚ, 0 ≤ tol → |s2nom p0 p1 p2| ≤ 4 * tol * 2)
-      ∧ (∀ (step : Pt ℚ → Pt ℚ → Pt ℚ → Option ℚ) (fuel : Nat), step p0 p1 p2 = none →
-          flattenQuadLoop step quadSplitR (fuel + 1) p0 p1 p2 = some [p2])
-      ∧ ∀ l : ℚ, 0 ≤ l → l ≤ 1 →
-          (1 / 4 : ℚ) ^ 2 ≤ Point.Dot (Point.Sub (quadraticBezierPos p0 p1 p2 (1 / 2)) (Point.Interpolate p0 p2 l))
-            (Point.Sub (quadraticBezierPos p0 p1 p2 (1 / 2)) (Point.Interpolate p0 p2 l)) := by
-  refine ⟨?_, ?_, ?_, ?_⟩
-  · simp only [s2nom, Point.Sub, Point.PerpDot]; norm_num
-  · intro tol htol
-    simp only [s2nom, Point.Sub, Point.PerpDot]; norm_num; linarith
-  · intro step fuel hs
-    simp [flattenQuadLoop, hs]
-  · intro l hl0 hl1
-    simp only [Point.Dot, Point.Sub, quadraticBezierPos, Point.Interpolate, Point.Mul, Point.Add]
-    nlinarith [sq_nonneg (l - 1)]
 
 /-! ## 4. the `replace` driver keeps the subpath structure -/
 
